@@ -59,3 +59,9 @@ package criteria_omission
 //@ wire CriteriaOmissionResult
 //@   property C01 C15 C20
 //@   json OmittedCriteria=omittedCriteria
+
+// ---- registered names (what a request must say to select this object; what error messages list)
+//@ func (*CriteriaOmission).Identifier
+//@   property C15 C20
+//@   nopanic
+//@   ensures [name] result == "criteriaOmission"
